@@ -1398,6 +1398,20 @@ impl<'a, const C: usize, const R: usize, T: 'a + Copy + std::fmt::Debug> Layout<
             (_, new) => custom.update(new),
         }
     }
+    /// Starts a sequence. There is room for four; a fifth pushes out the oldest, whose remaining
+    /// steps will never run, so the keys it still holds are released here.
+    fn start_sequence(&mut self, seq: SequenceState<'a, T>) {
+        if let Some(evicted) = self.active_sequences.push_back(seq) {
+            if let Some(keycode) = evicted.tapped {
+                self.states.retain(|s| s.seq_release(keycode).is_some());
+            }
+            for event in evicted.remaining_events.iter() {
+                if let SequenceEvent::Release(keycode) = event {
+                    self.states.retain(|s| s.seq_release(*keycode).is_some());
+                }
+            }
+        }
+    }
     /// Takes care of draining and populating the `active_sequences` ArrayDeque,
     /// giving us sequences (aka macros) of nearly limitless length!
     fn process_sequences(&mut self) {
@@ -2006,7 +2020,7 @@ impl<'a, const C: usize, const R: usize, T: 'a + Copy + std::fmt::Debug> Layout<
                 return custom;
             }
             Sequence { events } => {
-                self.active_sequences.push_back(SequenceState {
+                self.start_sequence(SequenceState {
                     cur_event: None,
                     delay: 0,
                     tapped: None,
@@ -2019,7 +2033,7 @@ impl<'a, const C: usize, const R: usize, T: 'a + Copy + std::fmt::Debug> Layout<
                 self.rpt_action = Some(action);
             }
             RepeatableSequence { events } => {
-                self.active_sequences.push_back(SequenceState {
+                self.start_sequence(SequenceState {
                     cur_event: None,
                     delay: 0,
                     tapped: None,
